@@ -173,7 +173,30 @@ def merge_and_check(recv, recv_model, new, new_model, flags, where):
                 recv_model.nrexcl = new_model.nrexcl
             return 'nrexcl-mismatch'
         raise Violation('merge-nrexcl', '%s: merge of molecules with different nrexcl did not raise' % where)
+    # The interactions of the newcomer arrive as they are: same parameters, held the same way (a tuple stays a tuple) and
+    # the newcomer itself is not edited by being merged.  Some of its parameter lists are turned into tuples first.
+    for itype, inters in new.interactions.items():
+        for pos, inter in enumerate(inters):
+            if (pos + len(inter.atoms)) % 2:
+                inters[pos] = inter._replace(parameters=tuple(inter.parameters))
+    new_before = ({k: dict(new.nodes[k]) for k in new.nodes},
+                  {t: [(tuple(i.atoms), type(i.parameters).__name__, tuple(i.parameters), dict(i.meta)) for i in l]
+                   for t, l in new.interactions.items() if l})
+    n_before = {t: len(l) for t, l in recv.interactions.items()}
     corr = recv.merge_molecule(new)
+    new_after = ({k: dict(new.nodes[k]) for k in new.nodes},
+                 {t: [(tuple(i.atoms), type(i.parameters).__name__, tuple(i.parameters), dict(i.meta)) for i in l]
+                  for t, l in new.interactions.items() if l})
+    if new_after != new_before and new is not recv:
+        raise Violation('merge-edits-newcomer', '%s: the molecule that was merged in is not the same afterwards: %r -> %r' % (
+            where, new_before, new_after))
+    for itype, entries in new_before[1].items():
+        arrived = recv.interactions[itype][n_before.get(itype, 0):]
+        if len(arrived) == len(entries):
+            for (atoms, kind, params, meta), got in zip(entries, arrived):
+                if type(got.parameters).__name__ != kind or tuple(got.parameters) != params:
+                    raise Violation('merge-parameters', '%s: %s parameters %s%r of the newcomer arrived as %s%r' % (
+                        where, itype, kind, params, type(got.parameters).__name__, tuple(got.parameters)))
     recv_model.nrexcl = eff_nrexcl
     if set(corr) != set(new_model.nodes):
         raise Violation('merge-correspondence', '%s: correspondence keys %r != newcomer nodes %r' % (where, sorted(corr), sorted(new_model.nodes)))
